@@ -16,8 +16,8 @@ func init() {
 		Explanation: "Decides, on every CFG path, that a backend failure leaves the hand untouched and is observed: (R1) in each hand method no store to the hand state, channel send or state update lies on any path to an error exit, and error exits return the stored state with the error; (R2) every call of a GameBackend method, and every self-driven group step (ReadyForAll/PayAnte/PayBlinds/Next issued by the hand itself), has its error tested and either returned or routed to the error callback; (R3) the engine registers an error handler before starting the hand and that handler, the open-game callback and the state-updated handler all reach the table error event; (R4) engine-side effects only on success (C10.R3 re-evaluated); (R5) the native backend works on a clone of its argument and returns a clone or nil. NOT decided: atomicity inside remote backends; that a retried action behaves identically (follows from R1/R5 only for the native backend).",
 		Rules: map[string]string{
 			"R1": "hand methods are pure on error: no hand-state store / send / state update on any path to an error exit; error exits return (stored state, err)",
-			"R2": "every backend error is tested and propagated to the caller or to the error callback; never dropped; nothing is updated on the failing branch",
-			"R3": "error callback registered before Start; it and the engine's own step handlers reach the table error event",
+			"R2": "every backend error is tested and propagated to the caller or to the error callback; never dropped; nothing is updated on the failing branch; no known-nil error returned (inverted test)",
+			"R3": "error callback registered before Start; it and the engine's own step handlers reach the table error event; every On<X> setter of the hand and of the engine stores the callback into its own slot",
 			"R4": "engine action methods: effects only under err == nil (same analysis as C10.R3)",
 			"R5": "native backend: NewGameFromState(clone(arg)); returns clone(state) on success, nil on error",
 		},
